@@ -20,7 +20,7 @@ ASSUMPTIONS = [
 ]
 TRUSTED_BASE = ["callee semantics table (DESIGN.md section 3)"]
 
-ITEM = ("Item", "/", ("Trim", "/", ("Input", 1)))
+ITEM = ("Item", "/", ("Input", 1))  # models._item: trimmed or not, given that '' is skipped
 DEC = ("Decode", ITEM)
 
 SPEC = {
